@@ -974,6 +974,26 @@ def search_witness(drv, rng, budget):
                 got = drv.call("run", hx(src), hx(""), hx(mod3), "0")
                 if not got.startswith("exec-fail"):
                     return {"call": "satisfy with two witness values swapped", "input": {"program": src, "witness": mod3}, "op": ["run", hx(src), hx(""), hx(mod3), "0"], "expected": "exec-fail", "observed": got}
+    # composite witnesses that the program INSPECTS: sums whose sides have different types (both sides), options, nesting
+    comp = [("Either<u16, u8>", "Right(5)", "match witness::E { Left(a: u16) => panic!(), Right(b: u8) => assert!(jet::eq_8(b, 5)), }"),
+            ("Either<u16, u8>", "Left(300)", "match witness::E { Left(a: u16) => assert!(jet::eq_16(a, 300)), Right(b: u8) => panic!(), }"),
+            ("Either<u8, u32>", "Left(7)", "match witness::E { Left(a: u8) => assert!(jet::eq_8(a, 7)), Right(b: u32) => panic!(), }"),
+            ("Either<u8, u32>", "Right(70000)", "match witness::E { Left(a: u8) => panic!(), Right(b: u32) => assert!(jet::eq_32(b, 70000)), }"),
+            ("Either<(u8, u8), u64>", "Left((1, 2))", "match witness::E { Left(a: (u8, u8)) => { let (x, y): (u8, u8) = a; assert!(jet::eq_8(y, 2)) }, Right(b: u64) => panic!(), }"),
+            ("Either<(), u64>", "Right(9)", "match witness::E { Left(a: ()) => panic!(), Right(b: u64) => assert!(jet::eq_64(b, 9)), }"),
+            ("Option<u32>", "Some(9)", "match witness::E { None => panic!(), Some(a: u32) => assert!(jet::eq_32(a, 9)), }"),
+            ("Option<u32>", "None", "match witness::E { None => assert!(true), Some(a: u32) => panic!(), }"),
+            ("Option<Either<u8, u16>>", "Some(Right(258))", "match witness::E { None => panic!(), Some(e: Either<u8, u16>) => match e { Left(a: u8) => panic!(), Right(b: u16) => assert!(jet::eq_16(b, 258)), }, }"),
+            ("(u8, Either<u16, u8>)", "(3, Left(4))", "{ let (p, e): (u8, Either<u16, u8>) = witness::E; match e { Left(a: u16) => assert!(jet::eq_16(a, 4)), Right(b: u8) => panic!(), } }"),
+            ("[Either<u8, u16>; 2]", "[Left(1), Right(2)]", "{ let [e1, e2]: [Either<u8, u16>; 2] = witness::E; match e2 { Left(a: u8) => panic!(), Right(b: u16) => assert!(jet::eq_16(b, 2)), } }"),
+            ("List<Either<u8, u16>, 4>", "list![Right(2)]", "{ let l: List<Either<u8, u16>, 4> = witness::E; assert!(true) }")]
+    for ty, val, use in comp:
+        src = "fn main() {\n    %s;\n}\n" % use
+        mod = "mod witness {\n    const E: %s = %s;\n}" % (ty, val)
+        for op in ("run",):    # not run_env: simplicity-lang 0.4.0's pruner mis-executes one of these (DESIGN.md 11.3, D1)
+            got = drv.call(op, hx(src), hx(""), hx(mod), "0")
+            if got != "ok":
+                return {"call": "satisfy with a composite witness that the program inspects", "input": {"program": src, "witness": mod}, "op": [op, hx(src), hx(""), hx(mod), "0"], "expected": "ok", "observed": got}
     return None
 
 
@@ -1340,6 +1360,37 @@ def search_static_rules(drv, rng, budget):
  ("fn main() { let x: u16 = 0x00ff; }", True), ("fn main() { let x: u32 = 0xdead_beef; }", True), ("fn main() { let x: [u8; 2] = 0xabcd; }", True), ("fn main() { let x: [u8; 2] = 0xabc; }", False),
  ("fn main() { let x: u4 = 0b1011; }", True), ("fn main() { let x: u4 = 0b101; }", False), ("fn main() { let x: u4 = 0b10110; }", False), ("fn main() { let x: u1 = 0b1; }", True),
  ("fn main() { let x: u8 = 0b1011_1101; }", True), ("fn main() { let x: u8 = 0b1011; }", False), ("fn main() { let x: u2 = 0b10; }", True), ("fn main() { let x: u2 = 0b1; }", False),
+ # every builtin type alias is a type (also the ones that are a prefix of another one)
+ ("fn f(x: Ctx8) -> Ctx8 { x } fn main() { }", True),
+ ("fn f(x: Pubkey) -> Pubkey { x } fn main() { }", True),
+ ("fn f(x: Message64) -> Message64 { x } fn main() { }", True),
+ ("fn f(x: Message) -> Message { x } fn main() { }", True),
+ ("fn f(x: Signature) -> Signature { x } fn main() { }", True),
+ ("fn f(x: Scalar) -> Scalar { x } fn main() { }", True),
+ ("fn f(x: Fe) -> Fe { x } fn main() { }", True),
+ ("fn f(x: Gej) -> Gej { x } fn main() { }", True),
+ ("fn f(x: Ge) -> Ge { x } fn main() { }", True),
+ ("fn f(x: Point) -> Point { x } fn main() { }", True),
+ ("fn f(x: Height) -> Height { x } fn main() { }", True),
+ ("fn f(x: Time) -> Time { x } fn main() { }", True),
+ ("fn f(x: Distance) -> Distance { x } fn main() { }", True),
+ ("fn f(x: Duration) -> Duration { x } fn main() { }", True),
+ ("fn f(x: Lock) -> Lock { x } fn main() { }", True),
+ ("fn f(x: Outpoint) -> Outpoint { x } fn main() { }", True),
+ ("fn f(x: Confidential1) -> Confidential1 { x } fn main() { }", True),
+ ("fn f(x: ExplicitAsset) -> ExplicitAsset { x } fn main() { }", True),
+ ("fn f(x: Asset1) -> Asset1 { x } fn main() { }", True),
+ ("fn f(x: ExplicitAmount) -> ExplicitAmount { x } fn main() { }", True),
+ ("fn f(x: Amount1) -> Amount1 { x } fn main() { }", True),
+ ("fn f(x: ExplicitNonce) -> ExplicitNonce { x } fn main() { }", True),
+ ("fn f(x: Nonce) -> Nonce { x } fn main() { }", True),
+ ("fn f(x: TokenAmount1) -> TokenAmount1 { x } fn main() { }", True),
+ ("fn f(x: Gejj) -> u8 { 1 } fn main() { }", False), ("fn f(x: Message6) -> u8 { 1 } fn main() { }", False),
+ # witnesses only inside main, wherever main stands
+ ("fn main() { } fn late() -> u8 { witness::A }", False),
+ ("fn early() -> u8 { witness::A } fn main() { }", False),
+ ("fn main() { let x: u8 = witness::A; } fn late() -> u8 { 1 }", True),
+ ("fn main() { let x: u8 = { let y: u8 = { witness::A }; y }; }", True),
  # parameters of one function have distinct names (the parameter list binds each name once; F6)
  ("fn f(a: u8, a: u8) -> u8 { a } fn main() { let x: u8 = f(1, 2); }", False),
  ("fn f(a: u8, a: u16) -> u16 { a } fn main() { let x: u16 = f(1, 2); }", False),
